@@ -2,11 +2,18 @@ from propcfg.common import COMMON_ASSUME
 
 CFG = {
     "bin": "c07",
-    "technique": "Lean 4 proof (mutual induction over the schema for decode-after-encode; induction over call sequences for the builders; "
+    "technique": "Lean 4 proof (mutual induction over the schema for decode-after-encode; induction over call sequences for the builders, with build() "
+                 "as an observation inside the sequence lifted over histories; "
                  "decide on the regenerated schemas) + differential correspondence with Python tomllib as the independent parser",
     "level_text": "Theorems (all call sequences, all payloads, no bound): BuildPlanBuilder yields the split of the call sequence at `or` (first group "
                   "top level, others in order under `or`, empty groups kept); LaunchBuilder/ProcessBuilder keep call order, concatenate args, take the "
-                  "last default / working directory; for every value of every written type (launch.toml, build plan with arbitrary metadata trees, layer "
+                  "last default / working directory; build() of the non-consuming builders (ProcessBuilder, LaunchBuilder: `build(&self)`) is an operation inside the "
+                  "call sequence: for every sequence with any number of build() calls at any positions, every build() - not only the last - returns the "
+                  "value of all calls made before it (launch_builder_every_build, launch_build_returns_everything_added_so_far), a later build() holds "
+                  "the earlier one's content followed by what was added since, two build()s with nothing added between are equal "
+                  "(launch_later_build_extends_earlier), the plural calls processes/labels/slices are the singular ones in order, Require::metadata called repeatedly keeps the last table "
+                  "(datetime-free tables; require_metadata_calls_partial), and every built Launch is "
+                  "written as a tree the specification's reader decodes to the value intended at that build(); for every value of every written type (launch.toml, build plan with arbitrary metadata trees, layer "
                   "content metadata, store.toml, exec.d output, package.toml) the tree the code's schema writes (renames, skip_serializing_if, custom "
                   "WorkingDirectory serialiser, as regenerated from /repo) is decoded by the specification's schema to exactly that value, and by libcnb's "
                   "own schema for the readable types. Tied to the code by the translator and by a differential run of the real builders and "
@@ -14,7 +21,7 @@ CFG = {
     "level_note": "Trusted: Lean kernel; my transcription of the CNB formats (Spec/CnbSchemas.lean) and of what a call sequence means (Spec/Written.lean); "
                   "`encode`/`decode` as the meaning of a serde-derived type; translator; harness; tools/toml2tree.py (tomllib). Not modelled: the toml "
                   "crate's text printer - 'valid TOML 1.0' and string escaping are established per sampled document by tomllib accepting the bytes and "
-                  "returning the model's tree, not by proof. HashMap collection for exec.d (last value per key) is modelled and sampled, not proved. write_toml_file's file handling (truncation) is not modelled: it is exercised by writing every document over pre-existing files. uriparse's grammar is modelled for the corpus' schemes only (uriRespell).",
+                  "returning the model's tree, not by proof. HashMap collection for exec.d (last value per key) is modelled and sampled, not proved. write_toml_file's file handling (truncation) is not modelled: it is exercised by writing every document over pre-existing files. uriparse's grammar is modelled for the corpus' schemes only (uriRespell). build() inside a call sequence: the model's build reads the state and leaves it (mirrors `&self` + clone); that the real build() does the same is exactly what the launchseq differential run tests, on every built document. BuildPlanBuilder::build(self) consumes the builder and the builder is not Clone, so no call sequence can continue after its build(); no builder of libcnb-data implements Clone, so clone-before/after-build sequences do not exist in the API (BuildResultBuilder / DetectResultBuilder / LayerResultBuilder of libcnb are consuming too and write nothing by themselves).",
     "shrink": [(1, "|"), (1, ",")],
     "rule": "exhaustive: every BuildPlanBuilder call sequence over {provides, requires, or} of length <= 5 (quick) / 7 (thorough); every payload "
             "string (29: quotes, backslashes, control characters, newlines, Unicode incl. astral/combining/BOM, empty, TOML-syntax look-alikes) in "
@@ -27,10 +34,20 @@ CFG = {
             "the tomllib reading must recover the constructed value in all six. package.toml URIs: 18 spellings delivered verbatim incl. 10 not in "
             "RFC 3986 normal form (upper-case host / unregistered scheme, dot segments, percent-encoded unreserved characters, trailing host dot, "
             "userinfo) + 7 spellings uriparse re-prints (known finding C07-F4, tagged uri_class=respelled), each once exhaustively and sampled. "
-            "non-trivial = a plan with >= 1 or() or metadata, a launch with >= 1 process, non-empty exec.d, any layer/store/package/payload case; "
+            "build() inside the call sequence (family launchseq; LaunchBuilder `B`, ProcessBuilder `b`; one more build() of each builder at the end; EVERY built "
+            "Launch is written by write_toml_file to its own path, parsed by tomllib on its own and compared with the value of all calls made before that "
+            "build()): exhaustive over all sequences of length <= 4 (quick) / 5 (thorough) over the 6-letter alphabet {process(web, default), process from a "
+            "ProcessBuilder that is built, extended and built again, label, slice, build, processes([p, q])} - this holds add/build/add/build, build twice "
+            "in a row, build first (empty document), build only - and all sequences of length <= 3 / 4 over {labels([..]), slices([..]), build, "
+            "processes([])}, on fresh paths; then 600 (quick) / 8000 (thorough) sampled sequences of <= 10 calls (26% build, ProcessBuilder sessions of <= 5 "
+            "calls with build() 1 in 6, plural calls 20%, payload strings as above), each on a fresh path and over one kind of pre-existing file in "
+            "rotation. Require::new followed by 0, 1, 2, 3 metadata(..) calls (op `q`; 0 calls = requires(\"name\") through From<S>; the table given last must be the one "
+            "written): 5 shapes x 4 plan contexts exhaustively + 200 / 3000 sampled plans of <= 5 calls with <= 3 metadata tables each. BuildPlanBuilder is consuming (`build(self)`, not Clone): a build() can only end its sequence, as enumerated above. "
+            "non-trivial = a launchseq with >= 1 configuring call and >= 1 build() besides the final ones, a plan with >= 1 or() or metadata, a launch with >= 1 process, non-empty exec.d, any layer/store/package/payload case; "
             "distinct = distinct input line",
     "exhaustive": True,
-    "trusted_base": ["Spec/CnbSchemas.lean + Spec/Written.lean are my reading of the CNB formats and of the builders' documented meaning",
+    "trusted_base": ["Spec/CnbSchemas.lean + Spec/Written.lean are my reading of the CNB formats and of the builders' documented meaning "
+                     "(incl. `callsBefore`: a build() of a non-consuming builder returns the value of all calls made before it, whatever build()s lie between)",
                      "Gen/Schemas.lean regenerated from the serde attributes (syn); tools/toml2tree.py (Python tomllib) is the independent TOML reader"],
     "assumptions": COMMON_ASSUME + ["serde's derived Serialize + toml::to_string print the tree `encode` describes (sampled with tomllib)",
                                     "HashMap collection keeps the last value per key (std)"],
